@@ -1695,15 +1695,36 @@ def run(ctx):
                                      dict(replay, lag=lag_, expected=dsum / den, observed=float(val)))
                 if nm == "diagline_dist" and tag != "crp" and 1 <= Rm.shape[0] <= 12 \
                         and Rm.shape[0] == int(obj.N):
-                    # round 4: the method as it computes (twice the lines of the lower triangle),
-                    # on symmetric and asymmetric (local-rate) matrices, with the missing-value mask
+                    # round 4: the method as it computes (twice the lines of the lower triangle, with
+                    # the missing-value mask) against the model `diaglineDist` — on symmetric
+                    # matrices, where the property fixes the value.  On the asymmetric matrices of a
+                    # fixed local rate the property does not say which triangle is to be read: the
+                    # oracle accepts twice the lower, twice the upper triangle or their sum.
                     mvi = getattr(obj, "missing_value_indices", None) \
                         if getattr(obj, "missing_values", False) else None
                     mask = "none" if mvi is None else ",".join(str(int(b)) for b in mvi)
-                    reqs.append(f"dline {int(obj.N)} {mask} {enc_bmat(Rm)}")
-                    impl.append(",".join(str(int(v)) for v in val) or "-")
-                    ctx.count("diagline_dist:" + ("asymmetric" if not np.array_equal(Rm, Rm.T)
-                                                  else "symmetric") + (":mv" if mvi is not None else ""))
+                    symm = bool(np.array_equal(Rm, Rm.T))
+                    ctx.count("diagline_dist:" + ("symmetric" if symm else "asymmetric")
+                              + (":mv" if mvi is not None else ""))
+                    if symm:
+                        reqs.append(f"dline {int(obj.N)} {mask} {enc_bmat(Rm)}")
+                        impl.append(",".join(str(int(v)) for v in val) or "-")
+                    elif mvi is None:
+                        side_ = Rm.shape[0]
+                        lo, up = [0] * side_, [0] * side_
+                        for k_ in range(1, side_):
+                            for r_ in runs_of(np.diag(Rm, -k_)):
+                                lo[r_ - 1] += 1
+                            for r_ in runs_of(np.diag(Rm, k_)):
+                                up[r_ - 1] += 1
+                        got_d = [int(v) for v in val]
+                        if got_d not in ([2 * a_ for a_ in lo], [2 * a_ for a_ in up],
+                                         [a_ + b_ for a_, b_ in zip(lo, up)]):
+                            ctx.fail(dict(kind="rqa-applicable", cls=tag, method="diagline_dist",
+                                          error="value", symmetric=False),
+                                     f"{klass.__name__}.diagline_dist() on an asymmetric matrix is neither "
+                                     "the line count of a triangle (doubled) nor of both triangles",
+                                     dict(replay, observed=got_d, lower=lo, upper=up))
                 if nm == "twins" and tag != "crp":
                     md = a[0] if a else 7
                     Nn = Rm.shape[0]
